@@ -153,7 +153,10 @@ pub async fn scenario() {
 	};
 	let presub = rt::chance("presub", 1, 2);
 	let n_batches = rt::draw_range("n_batches", 1, 2);
-	let mut world = World::new(SrvCfg { entry, buf_cap, frag, batch: batch_cfg, auto_sub: true, ..Default::default() });
+	// with a cap of one subscription per connection and the pre-existing subscription holding it, every subscribe
+	// entry of a batch is refused (-32006): by an entry of the array like any other error
+	let max_subs = if presub && rt::chance("sub_cap_1", 1, 4) { 1 } else { 1024 };
+	let mut world = World::new(SrvCfg { entry, buf_cap, frag, batch: batch_cfg, auto_sub: true, max_subs, ..Default::default() });
 	world.start().await;
 	let mut nonce = 100u64;
 	let mut plans = Vec::new();
@@ -382,7 +385,8 @@ pub async fn scenario() {
 			None => {
 				if batch_entry_ids.contains(id) {
 					let is_sub = String::from_utf8_lossy(f).contains("sub-");
-					rt::violate(P, "outside-array", if is_sub { "subscribe-entry:ws" } else { "entry:ws" }, format!("response {} to a batch entry was delivered as a frame of its own, outside the array", String::from_utf8_lossy(f)));
+					let refused = matches!(out, Err(-32006));
+					rt::violate(P, "outside-array", if is_sub && refused { "subscribe-entry-refused:ws" } else if is_sub { "subscribe-entry:ws" } else { "entry:ws" }, format!("response {} to a batch entry was delivered as a frame of its own, outside the array", String::from_utf8_lossy(f)));
 				} else {
 					rt::violate(P, "unaccounted-frame", "ws", format!("frame {} belongs to no message that was sent", String::from_utf8_lossy(f)));
 				}
